@@ -41,6 +41,9 @@ def cases_orders(tier, seed):
             yield dict(kind='sumproduct-shape', pattern=pat, shape=shape)
     for n in (100, 255, 256, 300, 1000):
         yield dict(kind='big', n=n)
+    # data in rows 1..m of a range of n rows: the last cell that holds something at, just before and just after the 101st row
+    for m, n in ((101, 101), (100, 250), (101, 250), (102, 250), (103, 250), (150, 400), (101, 1000)):
+        yield dict(kind='big-tail', m=m, n=n)
 
 
 def content(pat, perm=None):
@@ -70,7 +73,14 @@ def oracle(c):
     import xlcalculator
     from drivers.common import build_model, observe
     k = c['kind']
-    if k == 'big':
+    if k == 'big-tail':
+        m, n = c['m'], c['n']
+        cells = {f'A{i}': i for i in range(1, m + 1)}
+        cells.update({'B1': f'=SUM(A1:A{n})', 'B2': f'=COUNT(A1:A{n})', 'B3': f'=COUNTA(A1:A{n})', 'B4': f'=AVERAGE(A1:A{n})', 'B5': f'=MAX(A1:A{n})',
+                      'B6': f'=SUM(A1:A50)+SUM(A51:A{n})'})
+        exp = [('num', m * (m + 1) // 2), ('num', m), ('num', m), ('num', (m + 1) / 2), ('num', m), ('num', m * (m + 1) // 2)]
+        probes = ['B1', 'B2', 'B3', 'B4', 'B5', 'B6']
+    elif k == 'big':
         n = c['n']
         cells = {f'A{i}': i for i in range(1, n + 1)}
         cells.update({'B1': f'=SUM(A1:A{n})', 'B2': f'=COUNT(A1:A{n})', 'B3': f'=COUNTA(A1:A{n})', 'B4': f'=AVERAGE(A1:A{n})', 'B5': f'=MAX(A1:A{n})'})
